@@ -5,13 +5,23 @@ COMMON_ASSUME = [
     "verdicts hold for the executions observed, not for inputs the generators never produce",
 ]
 
-HOOK_COMMITS = ["fc089a8"]  # verif-hooks commits in /repo (fix: commits are listed in known_findings.json)
+HOOK_COMMITS = ["fc089a8", "d84b948"]  # verif-hooks commits in /repo (fix: commits are listed in known_findings.json)
 
 # properties without a registered check yet (kept current as monitors are added)
 NOT_APPLICABLE = {pid: "monitor under construction in this round: no check is registered for it yet (runtime monitoring does apply; see DESIGN.md §3)"
                   for pid in ["C%02d" % i for i in range(1, 19)]}
 
 PROPS = {
+    "C03": {
+        "technique": "runtime monitoring: offline checker over the hook event log (calibration parameters per mechanism) cross-checked against the literals of the emitted IR (sigma of every Gaussian term, tau of every threshold filter) and the returned DpEvent",
+        "level_text": "Exploration: ~30k DP compilations per quick run (1-3 aggregates incl. DISTINCT splits, var/std, grouped by public / private / mixed keys, joins along the privacy-unit path and with public tables, nested DP sub-queries, HAVING) x DpParameters grid (epsilon 0.01..50, delta 1e-9..0.1, thresholding shares, multiplicities, max groups 1..10) x with/without synthetic data, plus zero-budget requests. For each: every noised column of the IR must be matched by a Gaussian entry with multiplier <= sigma/C, every threshold filter by an epsilon-delta entry it satisfies (independent tau formula), and each aggregation's applied noise must fit its (epsilon, delta) under basic composition for some delta split.",
+        "level_note": "Trusted: the Gaussian calibration formula, Acklam's normal quantile (rel. error 1.2e-9), the IR pattern matcher for noise terms / threshold filters. The hook only supplies the clipping bound and the announced split; sigma and tau are read from the IR. Checks calibration formulas, not the DP theorem.",
+        "rule": ("4 (query, parameters, synthetic flag) triples per generated DP world; evaluation = one accepted DP compilation; "
+                 "distinct non-trivial = distinct triples whose rewritten query contains at least one randomised mechanism."),
+        "assumptions": COMMON_ASSUME + ["the events of the applied derivation are the last candidate group all of whose rewritten node names occur in the returned relation"],
+        "quick": {"shards": 16, "cases": 500, "watchdog_s": 1500, "require": {"evaluations": 20000, "noised_columns_observed": 40000, "tau_filters_observed": 2000, "budgets_checked": 15000}},
+        "thorough": {"shards": 16, "cases": 12000, "watchdog_s": 14400, "require": {"evaluations": 500000}},
+    },
     "C06": {
         "technique": "runtime monitoring: soundness oracle (independent membership) over value()/super_image() call pairs for every function and aggregate of the enums and for generated expression trees, violations localised to the lowest failing node",
         "level_text": "Exploration: for each of the 91 function variants, 20 aggregates and random expression trees (depth <= 4), argument types biased to range boundaries are drawn, several member values evaluated, and each result must lie in the propagated range (float tolerance 1e-9). ~3M judged evaluations per quick run; every function of the enum must have been evaluated or the run is inconclusive.",
